@@ -68,9 +68,17 @@ def native_preimage(ck, fn_rx, salt_const, tail, key):
 
 
 def run(ck):
-    ck.explanation = "C02: shared-wire connects, gated nullifier equation and hash preimage order in the expanded leaf constructor; native/circuit preimage agreement"
+    ck.explanation = ("C02: shared-wire connects, gated nullifier equation and hash preimage order in the expanded leaf constructor (default build and the `profile` build's "
+                      "`new_profiled` twin); native/circuit preimage agreement")
     ck.not_decided = ["Poseidon2 collision resistance and plonky2 hash gadget semantics (trusted base)"]
-    view = leaf.LeafView(ck)
+    check(ck, leaf.LeafView(ck))
+    # the `profile` feature swaps in a second constructor (`new_profiled`): the same obligations hold for the circuit it builds
+    from . import engine
+    prog2 = ck.extract("profile")
+    check(engine.Tagged(ck, "profile:", prog2), leaf.LeafView(ck, prog2, entry=r"WormholeCircuit::new_profiled$"))
+
+
+def check(ck, view):
     nsalt = ck.prog.const_str("nullifier::NULLIFIER_SALT")
     usalt = ck.prog.const_str("unspendable_account::UNSPENDABLE_SALT")
     ck.require(nsalt != usalt and len(nsalt) == 8 and len(usalt) == 8, "ITEM", "salts-distinct", "nullifier and address salts are distinct 8-byte constants (%r, %r)" % (nsalt, usalt))
